@@ -155,6 +155,8 @@ class Reporter:
                     self.known_hit.append((key, f.get("what", what)))
                     print("KNOWN-FINDING: property=%s %s" % (self.pid, f.get("what", what)), flush=True)
                 return False
+        if key in [k for k, _, _ in self.new]:
+            return True
         ensure_dirs()
         h = hashlib.sha1((self.pid + key).encode()).hexdigest()[:12]
         path = os.path.join(REPLAY, "%s-%s.json" % (self.pid, h))
@@ -182,3 +184,43 @@ def write_evidence(pid, tier, level, coverage, assumptions, wall_s, violations=0
     with open(path, "w") as f:
         json.dump(ev, f, indent=1, default=str)
     return path
+
+
+def build_native():
+    """(re)builds /verif/engines/native against the working tree; returns the binary path"""
+    import shutil
+    src = os.path.join(VERIF, "engines", "native")
+    dst = os.path.join(WORK, "native-src")
+    with Lock("native-build"):
+        os.makedirs(os.path.join(dst, "src"), exist_ok=True)
+        toml = open(os.path.join(src, "Cargo.toml")).read().replace("@REPO@", REPO)
+        _write_if_changed(os.path.join(dst, "Cargo.toml"), toml)
+        for f in os.listdir(os.path.join(src, "src")):
+            _write_if_changed(os.path.join(dst, "src", f), open(os.path.join(src, "src", f)).read())
+        shutil.copy(os.path.join(REPO, "Cargo.lock"), os.path.join(dst, "Cargo.lock"))
+        t = time.time()
+        run(["cargo", "build", "--offline", "-q"], cwd=dst, env={"CARGO_TARGET_DIR": os.path.join(WORK, "native-target")},
+            timeout=3600)
+        log("[native] built in %.1fs" % (time.time() - t))
+    return os.path.join(WORK, "native-target", "debug", "verif-native")
+
+
+def _write_if_changed(path, text):
+    if os.path.exists(path) and open(path).read() == text:
+        return
+    with open(path, "w") as f:
+        f.write(text)
+
+
+def native(binpath, *args, timeout=60):
+    """run verif-native, parse key=value lines"""
+    p = run([binpath] + [str(a) for a in args], timeout=timeout, check=False)
+    out = {}
+    for ln in p.stdout.splitlines():
+        if "=" in ln:
+            k, v = ln.split("=", 1)
+            out[k] = v
+    out["_rc"] = p.returncode
+    if p.returncode != 0 and "panic" not in out:
+        out["panic"] = "process exit %d: %s" % (p.returncode, p.stderr[-300:])
+    return out
